@@ -423,6 +423,7 @@ func (p *Packer) Unpack(r io.Reader, dst string) error {
 		if err != nil {
 			return fmt.Errorf("failed to untar slug: %w", err)
 		}
+		verifEntryBoundary(dst, header)
 
 		// If the entry has no name, ignore it.
 		if header.Name == "" {
@@ -527,6 +528,7 @@ func (p *Packer) Unpack(r io.Reader, dst string) error {
 		}
 	}
 
+	verifEntryBoundary(dst, nil)
 	for _, dir := range directoriesExtracted {
 		if err := dir.RestoreInfo(); err != nil {
 			return err
